@@ -153,9 +153,19 @@ package dnsmsg
 //@   ensures err == nil ==> off < noff && noff <= len(msg) && n != nil && fresh(n) && len(n) <= 254
 //@   ensures err != nil ==> n == nil
 
+// Compression table: every pointer value fits the 14 bits a pointer has (RFC 1035 4.1.4), the key of an entry is
+// the wire-format suffix starting at a label's length byte - the bytes the pointer target holds - and a hit
+// emits exactly the stored value with the two top bits set.
+//@ spec func ptrsFit(c map[string]uint16) bool = forallkey(k, c, has(c, k) ==> c[k] <= 0x3FFF)
 //@ func (n Name) pack(msg []byte, off int, compression map[string]uint16) (noff int, err error)
 //@   props C01 C02
 //@   requires 0 <= off && off <= len(msg)
+//@   requires compression == nil || ptrsFit(compression)
+//@   ensures compression == nil || ptrsFit(compression)
+//@   callsite mapread_compression?: [C02:key-is-the-wire-suffix] len(arg0) == len(n) - (scanner.labelOff - 1) && forall(j, 0, len(arg0), arg0[j] == n[scanner.labelOff - 1 + j])
+//@   callsite mapwrite_compression?: [C02:key-is-the-wire-suffix] len(arg0) == len(n) - (scanner.labelOff - 1) && forall(j, 0, len(arg0), arg0[j] == n[scanner.labelOff - 1 + j])
+//@   callsite mapwrite_compression?: [C02:pointer-fits-14-bits] arg1 <= 0x3FFF && int(arg1) == off
+//@   callsite packNamePtr?: [C02:pointer-is-a-table-value] ptr <= 0x3FFF
 //@   modifies msg[off:len(msg)], obj(compression)
 //@   ensures off <= noff && noff <= len(msg)
 //@   ensures err == nil ==> off < noff && noff - off <= len(n) + 1 && len(n) <= 254
@@ -167,6 +177,7 @@ package dnsmsg
 //@     invariant sameSlice(scanner.n, n, 0, len(n)) && 0 <= scanner.off && scanner.off <= len(n) && scanner.err == nil
 //@     invariant off0 <= off && off <= len(msg)
 //@     invariant len(unsafeStr) == 0 || len(unsafeStr) == len(n)
+//@     invariant compression == nil || ptrsFit(compression)
 //@     invariant off == off0 + scanner.off
 //@     invariant compression == nil && !sameObj(n, msg) ==> bytesEq(msg, off0, n, 0, scanner.off)
 //@     decreases len(n) - scanner.off
@@ -180,6 +191,8 @@ package dnsmsg
 
 //@ func (q *Question) pack(msg []byte, off int, compression map[string]uint16) (noff int, err error)
 //@   props C01 C02
+//@   requires compression == nil || ptrsFit(compression)
+//@   ensures compression == nil || ptrsFit(compression)
 //@   requires q != nil && 0 <= off && off <= len(msg)
 //@   modifies msg[off:len(msg)], obj(compression)
 //@   ensures off <= noff && noff <= len(msg)
@@ -494,6 +507,8 @@ package dnsmsg
 
 //@ func (h *ResourceHdr) pack(msg []byte, off int, compression map[string]uint16, dataLen uint16) (noff int, err error)
 //@   props C01 C02 C09
+//@   requires compression == nil || ptrsFit(compression)
+//@   ensures compression == nil || ptrsFit(compression)
 //@   requires h != nil && 0 <= off && off <= len(msg)
 //@   modifies msg[off:len(msg)], obj(compression)
 //@   ensures off <= noff && noff <= len(msg)
@@ -506,6 +521,8 @@ package dnsmsg
 
 //@ func (r *A) pack(msg []byte, off int, compression map[string]uint16) (noff int, err error)
 //@   props C01 C02 C09
+//@   requires compression == nil || ptrsFit(compression)
+//@   ensures compression == nil || ptrsFit(compression)
 //@   requires r != nil && 0 <= off && off <= len(msg)
 //@   modifies msg[off:len(msg)], obj(compression)
 //@   ensures err == nil ==> off < noff && noff <= len(msg) && noff - off <= nameLen(r.Name) + 14
@@ -514,6 +531,8 @@ package dnsmsg
 
 //@ func (r *AAAA) pack(msg []byte, off int, compression map[string]uint16) (noff int, err error)
 //@   props C01 C02 C09
+//@   requires compression == nil || ptrsFit(compression)
+//@   ensures compression == nil || ptrsFit(compression)
 //@   requires r != nil && 0 <= off && off <= len(msg)
 //@   modifies msg[off:len(msg)], obj(compression)
 //@   ensures err == nil ==> off < noff && noff <= len(msg) && noff - off <= nameLen(r.Name) + 26
@@ -522,6 +541,8 @@ package dnsmsg
 
 //@ func (r *NAMEResource) pack(msg []byte, off int, compression map[string]uint16) (noff int, err error)
 //@   props C01 C02 C09
+//@   requires compression == nil || ptrsFit(compression)
+//@   ensures compression == nil || ptrsFit(compression)
 //@   requires r != nil && 0 <= off && off <= len(msg)
 //@   modifies msg[off:len(msg)], obj(compression)
 //@   ensures err == nil ==> off < noff && noff <= len(msg) && noff - off <= nameLen(r.Name) + 10 + nameLen(r.NameData)
@@ -530,6 +551,8 @@ package dnsmsg
 
 //@ func (r *SOA) pack(msg []byte, off int, compression map[string]uint16) (noff int, err error)
 //@   props C01 C02 C09
+//@   requires compression == nil || ptrsFit(compression)
+//@   ensures compression == nil || ptrsFit(compression)
 //@   requires r != nil && 0 <= off && off <= len(msg)
 //@   modifies msg[off:len(msg)], obj(compression)
 //@   ensures err == nil ==> off < noff && noff <= len(msg) && noff - off <= nameLen(r.Name) + 10 + nameLen(r.NS) + nameLen(r.MBox) + 20
@@ -541,6 +564,8 @@ package dnsmsg
 
 //@ func (r *MX) pack(msg []byte, off int, compression map[string]uint16) (noff int, err error)
 //@   props C01 C02 C09
+//@   requires compression == nil || ptrsFit(compression)
+//@   ensures compression == nil || ptrsFit(compression)
 //@   requires r != nil && 0 <= off && off <= len(msg)
 //@   modifies msg[off:len(msg)], obj(compression)
 //@   ensures err == nil ==> off < noff && noff <= len(msg) && noff - off <= nameLen(r.Name) + 12 + nameLen(r.MX)
@@ -550,6 +575,8 @@ package dnsmsg
 
 //@ func (r *SRV) pack(msg []byte, off int, compression map[string]uint16) (noff int, err error)
 //@   props C01 C02 C09
+//@   requires compression == nil || ptrsFit(compression)
+//@   ensures compression == nil || ptrsFit(compression)
 //@   requires r != nil && 0 <= off && off <= len(msg)
 //@   modifies msg[off:len(msg)], obj(compression)
 //@   ensures err == nil ==> off < noff && noff <= len(msg) && noff - off <= nameLen(r.Name) + 16 + nameLen(r.Target)
@@ -560,6 +587,8 @@ package dnsmsg
 
 //@ func (rr *RawResource) pack(msg []byte, off int, compression map[string]uint16) (noff int, err error)
 //@   props C01 C02 C09
+//@   requires compression == nil || ptrsFit(compression)
+//@   ensures compression == nil || ptrsFit(compression)
 //@   requires rr != nil && 0 <= off && off <= len(msg)
 //@   modifies msg[off:len(msg)], obj(compression)
 //@   ensures err == nil ==> off < noff && noff <= len(msg) && len(rr.Data) <= 65535 && noff - off <= nameLen(rr.Name) + 10 + len(rr.Data)
@@ -684,7 +713,7 @@ package dnsmsg
 //@ func newCompressionMap() (mp map[string]uint16)
 //@   trusted
 //@   modifies nothing
-//@   ensures mp != nil && fresh(mp)
+//@   ensures mp != nil && fresh(mp) && forallkey(k, mp, !has(mp, k)) -- maps go back to the pool cleared
 //@ func releaseCompressionMap(m map[string]uint16)
 //@   trusted
 //@   modifies obj(m)
